@@ -720,8 +720,18 @@ func (c *vfC03Case) actDocConflict(rt *rapid.T) {
 }
 
 // check is the oracle, run after every action.
-func (c *vfC03Case) check(rt *rapid.T) {
+func (c *vfC03Case) check(rt *rapid.T) { c.checkUsers(rt, false) }
+
+// checkUsers loads users and compares them with the model. Unless all is set, each user is left
+// unloaded with probability 1/4, so that channel and/or role invalidations stay pending across the
+// following grant changes (a user that makes no request for a while).
+func (c *vfC03Case) checkUsers(rt *rapid.T, all bool) {
 	for _, name := range vfSortedKeys(c.m.users) {
+		if !all && rapid.IntRange(0, 3).Draw(rt, "skipLoad_"+name) == 0 {
+			c.classes["user-left-unloaded-for-a-step"] = true
+			c.ops = append(c.ops, "noLoad("+name+")")
+			continue
+		}
 		wantChans := c.m.effective(name)
 		wantRoles := c.m.rolesOf(name)
 		var gotChans, gotRoles []string
@@ -831,6 +841,7 @@ func vfC03Run(t *testing.T, rec *kit.Rec, rt *rapid.T) {
 		"docConflict": c.actDocConflict,
 		"":            c.check,
 	})
+	c.checkUsers(rt, true)
 	classes := []string{fmt.Sprintf("defaultCollection=%v", deflt)}
 	for _, k := range vfSortedKeys(c.classes) {
 		classes = append(classes, k)
